@@ -354,6 +354,10 @@ def plan_C05(c):
     c.mc('MC_Refine', cfg='MC_Refine_far_zero', expect='violation')      # round.rs "far" branch: directed modes must still move away from zero
     if c.tier != 'quick':
         c.mc('MC_Refine', cfg='MC_Refine_ok_full')
+        # unbounded in the numerator: the oracle's rounding function against the declarative definition of the eight modes,
+        # symbolic integers (Apalache); MC_SpecLaws!NativeCopy ties the native copy in AP_Round.tla to FpDec!RoundQ
+        c.apalache('AP_Round', 'Laws')
+        c.apalache('AP_Round', 'Laws', expect='violation', mutate=('nearest(IF fl % 2 = 0 THEN fl ELSE up)', 'nearest(up)'))
     # the kernel grid: every (n, d) x 8 modes x sign of d
     calls = []
     for n, d in grid(c, 'kernel'):
